@@ -3,6 +3,7 @@ CONSTANTS
   MaxLen = 4
   Adaptors = {"enumerate", "reverse"}
   Cats = {"lvalue", "const", "rvalue", "crvalue"}
+  Styles = {"pre", "post"}
   Handoffs = {"direct", "copy", "move", "assign"}
 INVARIANTS VisitsAll WritesLand NoWritesElsewhere TempOutlivesLoop Emit
 PROPERTY Terminates
